@@ -20,6 +20,7 @@ import (
 	"sort"
 	"strings"
 
+	"github.com/bufbuild/buf/private/pkg/thread"
 	"github.com/bufbuild/verifharness/internal/hx"
 	sg "github.com/bufbuild/verifharness/internal/schemagen"
 )
@@ -118,7 +119,7 @@ func gotOf(as []sg.Ann, rule string) []string {
 	return out
 }
 
-// evalPlanted runs the detector on one planted edit and checks the expectations.
+// evalPlanted compiles the planted edit and evaluates it (see evalCompiled).
 func evalPlanted(run *hx.Run, job int, res *sg.Result, rn *sg.Runner, cache *sg.Cache, prev *sg.Compiled, p *planted, r *hx.Rand) bool {
 	opn := p.op.Name
 	cur, err := cache.Compile(p.cur.Sources())
@@ -127,13 +128,79 @@ func evalPlanted(run *hx.Run, job int, res *sg.Result, rn *sg.Runner, cache *sg.
 		res.Samples = append(res.Samples, map[string]any{"edit-compile-error": err.Error(), "op": opn, "note": p.note, "sources": p.cur.Sources()})
 		return false
 	}
-	res.Count("applied:" + opn)
+	return evalCompiled(run, job, res, rn, cur, prev, p, r, "")
+}
+
+// checkExpectations is the oracle: every expectation of the planted edit has an annotation with
+// its rule id at exactly its file and source path in every version / category where the rule is
+// active (sets: "v2/FILE" -> annotations of that run) and in the single-rule run.  keep (may be
+// nil) says which expectations apply to this pair of images.
+func checkExpectations(res *sg.Result, fail func(class, what string), in map[string]any, p *planted, cur *sg.Compiled,
+	sets map[string][]sg.Ann, single map[string][]sg.Ann, tag string, keep func(e sg.Expect, want sg.Resolved) bool) {
+	opn := p.op.Name
+	for _, e := range p.exp {
+		want, err := sg.Resolve(cur, e)
+		if err != nil {
+			res.Count("locator:unresolved:" + opn)
+			res.Samples = append(res.Samples, map[string]any{"locator-unresolved": err.Error(), "op": opn, "input": in})
+			continue
+		}
+		if !want.AnyPath && want.File != e.File {
+			res.Count("locator:file-mismatch:" + opn)
+			res.Samples = append(res.Samples, map[string]any{"locator-file-mismatch": e, "resolved": want, "op": opn, "input": in})
+			continue
+		}
+		if keep != nil && !keep(e, want) {
+			res.Count("expect:void" + tag + ":" + opn)
+			continue
+		}
+		res.Count("expect" + tag + ":" + e.Rule)
+		res.Count("checked" + tag + ":" + opn)
+		if tag == "" {
+			res.Sets["rules_with_checked_expectation"] = append(res.Sets["rules_with_checked_expectation"], e.Rule)
+		}
+		check := func(where string, as []sg.Ann) {
+			fired, located := matches(as, e.Rule, want)
+			switch {
+			case located:
+				res.Count("oracle:ok")
+			case !fired && strings.HasPrefix(e.Class, sg.ObservePrefix):
+				res.Count(e.Class)
+				res.Sets["observations"] = append(res.Sets["observations"], e.Class+" ("+opn+")")
+			case !fired:
+				class := "C03-missed-" + e.Rule
+				if e.Class != "" {
+					class = e.Class
+				}
+				fail(class, fmt.Sprintf("%s%s: op %s expects %s at file=%q path=%s (%s); the rule did not fire", where, tag, opn, e.Rule, want.File, want.Path, e.Locator))
+			default:
+				fail("C03-mislocated-"+e.Rule, fmt.Sprintf("%s%s: op %s expects %s at file=%q path=%s (%s); got %v", where, tag, opn, e.Rule, want.File, want.Path, e.Locator, gotOf(as, e.Rule)))
+			}
+		}
+		for _, v := range sg.Versions {
+			for _, cat := range sg.Categories {
+				if sg.ActiveIn(v.Name, e.Rule, cat) {
+					check(v.Name+"/"+cat, sets[v.Name+"/"+cat])
+				}
+			}
+		}
+		if as, ok := single[e.Rule]; ok {
+			check("v2/single:"+e.Rule, as)
+		}
+	}
+}
+
+// evalCompiled runs the detector on one planted edit (both sides compiled) and checks the
+// expectations.
+func evalCompiled(run *hx.Run, job int, res *sg.Result, rn *sg.Runner, cur, prev *sg.Compiled, p *planted, r *hx.Rand, tag string) bool {
+	opn := p.op.Name
+	res.Count("applied" + tag + ":" + opn)
 	res.Count("variant:" + p.variant)
 	in := map[string]any{"current": cur.Sources, "previous": prev.Sources, "edit": p.note, "site": p.site.String(), "expect": p.exp}
 	fail := func(class, what string) {
 		res.Fail(hx.OracleFailure{Class: class, What: what, Input: in, Replay: replay(run, job)})
 	}
-	pe := sg.EvalPair(rn, cur, prev, r.Chance(1, 8))
+	pe := sg.EvalPair(rn, cur, prev, tag == "" && r.Chance(1, 8))
 	if pe.Err != nil {
 		fail(sg.ErrClass("C03", pe.Err), pe.ErrAt+": "+pe.Err.Error())
 		return true
@@ -151,7 +218,16 @@ func evalPlanted(run *hx.Run, job int, res *sg.Result, rn *sg.Runner, cache *sg.
 	} else {
 		res.Count("pairs:non-clean")
 	}
-	// single-rule runs (v2) for the expected rules
+	single, ok := singleRuns(res, fail, rn, cur, prev, p, pe.Idx)
+	if !ok {
+		return true
+	}
+	checkExpectations(res, fail, in, p, cur, pe.Sets, single, tag, nil)
+	return true
+}
+
+// singleRuns: one single-rule run (v2) per expected rule id + the `rules` protocol line.
+func singleRuns(res *sg.Result, fail func(class, what string), rn *sg.Runner, cur, prev *sg.Compiled, p *planted, idx sg.PathIndex) (map[string][]sg.Ann, bool) {
 	ruleSet := map[string]bool{}
 	for _, e := range p.exp {
 		if _, ok := sg.RuleCats["v2"][e.Rule]; ok {
@@ -169,10 +245,10 @@ func evalPlanted(run *hx.Run, job int, res *sg.Result, rn *sg.Runner, cache *sg.
 	sort.Strings(modelled)
 	single := map[string][]sg.Ann{}
 	if len(all) > 0 {
-		_, _, sets, err := sg.RulesLine(rn, all, cur, prev, pe.Idx)
+		_, _, sets, err := sg.RulesLine(rn, all, cur, prev, idx)
 		if err != nil {
 			fail(sg.ErrClass("C03", err), "single-rule run: "+err.Error())
-			return true
+			return nil, false
 		}
 		single = sets
 		if len(modelled) > 0 {
@@ -185,52 +261,150 @@ func evalPlanted(run *hx.Run, job int, res *sg.Result, rn *sg.Runner, cache *sg.
 			res.Count("lines:rules")
 		}
 	}
-	// the oracle
-	for _, e := range p.exp {
-		want, err := sg.Resolve(cur, e)
-		if err != nil {
-			res.Count("locator:unresolved:" + opn)
-			res.Samples = append(res.Samples, map[string]any{"locator-unresolved": err.Error(), "op": opn, "input": in})
-			continue
-		}
-		if !want.AnyPath && want.File != e.File {
-			res.Count("locator:file-mismatch:" + opn)
-			res.Samples = append(res.Samples, map[string]any{"locator-file-mismatch": e, "resolved": want, "op": opn, "input": in})
-			continue
-		}
-		res.Count("expect:" + e.Rule)
-		res.Count("checked:" + opn)
-		res.Sets["rules_with_checked_expectation"] = append(res.Sets["rules_with_checked_expectation"], e.Rule)
-		check := func(where string, as []sg.Ann) {
-			fired, located := matches(as, e.Rule, want)
-			switch {
-			case located:
-				res.Count("oracle:ok")
-			case !fired && strings.HasPrefix(e.Class, sg.ObservePrefix):
-				res.Count(e.Class)
-				res.Sets["observations"] = append(res.Sets["observations"], e.Class+" ("+opn+")")
-			case !fired:
-				class := "C03-missed-" + e.Rule
-				if e.Class != "" {
-					class = e.Class
-				}
-				fail(class, fmt.Sprintf("%s: op %s expects %s at file=%q path=%s (%s); the rule did not fire", where, opn, e.Rule, want.File, want.Path, e.Locator))
-			default:
-				fail("C03-mislocated-"+e.Rule, fmt.Sprintf("%s: op %s expects %s at file=%q path=%s (%s); got %v", where, opn, e.Rule, want.File, want.Path, e.Locator, gotOf(as, e.Rule)))
-			}
-		}
-		for _, v := range sg.Versions {
-			for _, cat := range sg.Categories {
-				if sg.ActiveIn(v.Name, e.Rule, cat) {
-					check(v.Name+"/"+cat, pe.Sets[v.Name+"/"+cat])
-				}
-			}
-		}
-		if as, ok := single[e.Rule]; ok {
-			check("v2/single:"+e.Rule, as)
+	return single, true
+}
+
+func sortedKeys(m map[string]bool) []string {
+	out := make([]string, 0, len(m))
+	for k := range m {
+		out = append(out, k)
+	}
+	sort.Strings(out)
+	return out
+}
+
+// evalPlantedImports re-evaluates a planted edit on images that contain IMPORT files: only some
+// files are targets (plus an importer file that imports every file, or - flavour "natural" - the
+// files that import others are the targets), and the edited file is kept out of the targets so
+// that, where the flavour allows, the edit sits in an import file.  Oracles:
+//   - WITHOUT exclude-imports every expectation holds exactly as without imports (no rule handler
+//     may skip import files: the documented breaking change must be reported);
+//   - WITH BreakingWithExcludeImports no annotation is located in an import file of the current
+//     image, the result is a subset of the run without it, and - when the previous image has no
+//     import file - every expectation located in a non-import file (or without file) survives.
+func evalPlantedImports(run *hx.Run, job int, res *sg.Result, rn *sg.Runner, base sg.State, p *planted, r *hx.Rand) {
+	opn := p.op.Name
+	var files, importers []string
+	imps := base.S.Imports()
+	for _, f := range base.S.Files {
+		files = append(files, f.Name)
+		if len(imps[f.Name]) > 0 {
+			importers = append(importers, f.Name)
 		}
 	}
-	return true
+	mustSet := map[string]bool{}
+	if p.site.File != "" {
+		mustSet[p.site.File] = true
+	}
+	for _, e := range p.exp {
+		if e.File != "" {
+			mustSet[e.File] = true
+		}
+	}
+	cs, ps, flavour := sg.PickImportSpecs(r, files, sortedKeys(mustSet), importers)
+	prev, err := sg.CompileTargeted(base.Sources(), ps)
+	if err != nil {
+		res.Count("imports:compile-error:prev")
+		return
+	}
+	cur, err := sg.CompileTargeted(p.cur.Sources(), cs)
+	if err != nil {
+		res.Count("imports:compile-error:cur")
+		return
+	}
+	curImp, prevImp := cur.ImportFiles(), prev.ImportFiles()
+	res.Count("imports:flavour:" + flavour)
+	res.Count("imports:mode:" + sg.TargetModeNames[cs.Mode])
+	res.Count("applied:imports:" + opn)
+	in := map[string]any{"current": cur.Sources, "previous": prev.Sources, "edit": p.note, "site": p.site.String(), "expect": p.exp,
+		"imports": flavour + "/" + sg.TargetModeNames[cs.Mode], "current_imports": sortedKeys(curImp), "previous_imports": sortedKeys(prevImp)}
+	fail := func(class, what string) {
+		res.Fail(hx.OracleFailure{Class: class, What: what, Input: in, Replay: replay(run, job)})
+	}
+	pe := sg.EvalPair(rn, cur, prev, false)
+	if pe.Err != nil {
+		fail(sg.ErrClass("C03", pe.Err), "imports: "+pe.ErrAt+": "+pe.Err.Error())
+		return
+	}
+	px := sg.EvalPairExcl(rn, cur, prev, pe.Idx)
+	if px.Err != nil {
+		fail(sg.ErrClass("C03", px.Err), "imports: "+px.ErrAt+": "+px.Err.Error())
+		return
+	}
+	note := "imports " + flavour + "/" + sg.TargetModeNames[cs.Mode] + " " + p.variant + " " + p.note
+	res.Cases = append(res.Cases, sg.Case{In: pe.In, Out: pe.Out, Nontrivial: true, Note: note, Cur: cur.Sources, Prev: prev.Sources})
+	if px.In != "" {
+		res.Cases = append(res.Cases, sg.Case{In: px.In, Out: px.Out, Nontrivial: true, Note: "exclude-imports " + note, Cur: cur.Sources, Prev: prev.Sources})
+		res.Count("lines:pairx")
+	}
+	// the files the edit is about must be part of both images (flavour "natural" drops the files
+	// no target reaches)
+	inImages := func(e sg.Expect, want sg.Resolved) bool {
+		if p.site.File != "" && !prev.HasFile(p.site.File) {
+			return false
+		}
+		if want.File != "" && (!cur.HasFile(want.File) || !prev.HasFile(want.File)) {
+			return false
+		}
+		return true
+	}
+	single, ok := singleRuns(res, fail, rn, cur, prev, p, pe.Idx)
+	if !ok {
+		return
+	}
+	editedIsImport := false
+	for f := range mustSet {
+		if curImp[f] {
+			editedIsImport = true
+		}
+	}
+	if editedIsImport {
+		res.Count("imports:edit-in-import-file")
+	}
+	checkExpectations(res, fail, in, p, cur, pe.Sets, single, ":imports", inImages)
+	// with exclude-imports
+	for key, xs := range px.Sets {
+		have := map[string]bool{}
+		for _, a := range pe.Sets[key] {
+			have[a.Key()] = true
+		}
+		for _, a := range xs {
+			if !have[a.Key()] {
+				fail("C03-exclude-imports-not-a-filter", key+": only with exclude-imports: "+fmt.Sprint(sg.AnnStrings([]sg.Ann{a})))
+			}
+			if a.File != "" && curImp[a.File] {
+				fail("C03-exclude-imports-kept-import-file", key+": an annotation located in an import file survives exclude-imports: "+fmt.Sprint(sg.AnnStrings([]sg.Ann{a})))
+			}
+		}
+	}
+	if len(prevImp) == 0 {
+		nonImport := func(e sg.Expect, want sg.Resolved) bool {
+			return inImages(e, want) && (want.File == "" || !curImp[want.File])
+		}
+		// single-rule runs with exclude-imports for the expected rules
+		ids := map[string]bool{}
+		for _, e := range p.exp {
+			if _, ok := sg.RuleCats["v2"][e.Rule]; ok && !sg.IsUnmodelled(e.Rule) {
+				ids[e.Rule] = true
+			}
+		}
+		xsingle := map[string][]sg.Ann{}
+		if len(ids) > 0 {
+			xin, xout, sets, err := sg.RulesLineExcl(rn, sortedKeys(ids), cur, prev, pe.Idx)
+			if err != nil {
+				fail(sg.ErrClass("C03", err), "imports: single-rule run with exclude-imports: "+err.Error())
+				return
+			}
+			xsingle = sets
+			if xin != "" {
+				res.Cases = append(res.Cases, sg.Case{In: xin, Out: xout, Nontrivial: true, Note: "rulesx " + note, Cur: cur.Sources, Prev: prev.Sources})
+				res.Count("lines:rulesx")
+			}
+		}
+		checkExpectations(res, func(class, what string) {
+			fail(strings.Replace(class, "C03-", "C03-exclude-imports-dropped-non-import-", 1), what)
+		}, in, p, cur, px.Sets, xsingle, ":exclude-imports", nonImport)
+	}
 }
 
 // ---------------------------------------------------------------------------------------------
@@ -391,6 +565,231 @@ func makePlan(run *hx.Run, root *hx.Rand, bases []baseT) (plan []entry, strata i
 	return plan, strata
 }
 
+// matrixJob: the defaults matrix (sg.DefaultCases) in one layout: one field per (type, old literal,
+// new literal); previous = the old literals, current = the new ones.  Whether the VALUE changed is
+// read off the two compiled descriptors (protoreflect Default(), independent of field_default.go)
+// and must agree with the table.  Oracle: every value change is reported by FIELD_SAME_DEFAULT at
+// the field's default option (at the field when the option is gone) in every configuration where
+// the rule is active and in the single-rule run.  Same-value respellings are only counted here
+// (C04 demands that they are NOT reported).
+func matrixJob(run *hx.Run, replayID int, layout int, rn *sg.Runner) *sg.Result {
+	res := sg.NewResult()
+	cases := sg.DefaultCases()
+	lname := sg.MatrixLayoutNames[layout]
+	prevSrc, fields := sg.RenderDefaultMatrix(cases, layout, true)
+	curSrc, _ := sg.RenderDefaultMatrix(cases, layout, false)
+	in := map[string]any{"current": curSrc, "previous": prevSrc, "edit": "defaults matrix, layout " + lname}
+	fail := func(class, what string) {
+		res.Fail(hx.OracleFailure{Class: class, What: what, Input: in, Replay: replay(run, replayID)})
+	}
+	prev, err := sg.Compile(prevSrc)
+	if err != nil {
+		fail("harness-default-matrix-compile", "previous: "+err.Error())
+		return res
+	}
+	cur, err := sg.Compile(curSrc)
+	if err != nil {
+		fail("harness-default-matrix-compile", "current: "+err.Error())
+		return res
+	}
+	pe := sg.EvalPair(rn, cur, prev, false)
+	if pe.Err != nil {
+		fail(sg.ErrClass("C03", pe.Err), pe.ErrAt+": "+pe.Err.Error())
+		return res
+	}
+	note := "defaults-matrix " + lname
+	res.Cases = append(res.Cases, sg.Case{In: pe.In, Out: pe.Out, Nontrivial: true, Note: note, Cur: curSrc, Prev: prevSrc})
+	const rule = "FIELD_SAME_DEFAULT"
+	rin, rout, sets, err := sg.RulesLine(rn, []string{rule}, cur, prev, pe.Idx)
+	if err != nil {
+		fail(sg.ErrClass("C03", err), "single-rule run: "+err.Error())
+		return res
+	}
+	res.Cases = append(res.Cases, sg.Case{In: rin, Out: rout, Nontrivial: true, Note: "rules " + note, Cur: curSrc, Prev: prevSrc})
+	res.Count("lines:rules")
+	runs := map[string][]sg.Ann{"v2/single:" + rule: sets[rule]}
+	for _, v := range sg.Versions {
+		for _, cat := range sg.Categories {
+			if sg.ActiveIn(v.Name, rule, cat) {
+				runs[v.Name+"/"+cat] = pe.Sets[v.Name+"/"+cat]
+			}
+		}
+	}
+	at := func(as []sg.Ann, file string, paths ...string) bool {
+		for _, a := range as {
+			if a.Rule != rule || a.File != file {
+				continue
+			}
+			for _, p := range paths {
+				if a.Path == p {
+					return true
+				}
+			}
+		}
+		return false
+	}
+	fails := 0
+	for _, mf := range fields {
+		c := cases[mf.Case]
+		o, err := sg.DefaultOutcomeOf(cur, prev, mf.FullName)
+		if err != nil {
+			fail("harness-default-matrix-field", err.Error())
+			continue
+		}
+		fieldPath := strings.TrimSuffix(o.Path, ".7")
+		key := "matrix:" + c.Type
+		switch {
+		case c.Observe:
+			res.Count("matrix:observe-sign-of-zero:" + fmt.Sprint(at(runs["v2/single:"+rule], o.File, fieldPath, fieldPath+".7")))
+		case o.Changed == c.Same:
+			fail("harness-default-matrix-table", fmt.Sprintf("%s (%s): table says same=%v, the descriptors say %s -> %s", c, lname, c.Same, o.OldKey, o.NewKey))
+		case c.Same:
+			res.Count(key + ":same-value")
+			if at(runs["v2/single:"+rule], o.File, fieldPath, fieldPath+".7") {
+				res.Count("observe:same-value-default-reported")
+			}
+		default:
+			res.Count(key + ":value-change")
+			res.Count("expect:" + rule)
+			res.Sets["rules_with_checked_expectation"] = append(res.Sets["rules_with_checked_expectation"], rule)
+			for _, where := range sortedKeysOf(runs) {
+				as := runs[where]
+				switch {
+				case at(as, o.File, o.Path):
+					res.Count("oracle:ok")
+				case at(as, o.File, fieldPath, fieldPath+".7"):
+					fails++
+					if fails <= 40 {
+						fail("C03-mislocated-"+rule, fmt.Sprintf("%s: defaults matrix (%s) field %s: %s expects %s at file=%q path=%s", where, lname, mf.FullName, c, rule, o.File, o.Path))
+					}
+				default:
+					fails++
+					if fails <= 40 {
+						fail("C03-missed-"+rule, fmt.Sprintf("%s: defaults matrix (%s) field %s: %s: the default value changed (%s -> %s) and %s did not fire at file=%q path=%s",
+							where, lname, mf.FullName, c, o.OldKey, o.NewKey, rule, o.File, o.Path))
+					}
+				}
+			}
+		}
+	}
+	res.Count("matrix:layout:" + lname)
+	return res
+}
+
+func sortedKeysOf(m map[string][]sg.Ann) []string {
+	out := make([]string, 0, len(m))
+	for k := range m {
+		out = append(out, k)
+	}
+	sort.Strings(out)
+	return out
+}
+
+// bigJob (large images): bufprotosource.NewFiles converts the files of an image in parallel
+// chunks of len/thread.Parallelism() files once a chunk would hold >= 8 files; what does not fill a
+// chunk goes into a REMAINDER chunk.  Under thread.SetParallelism(p) (own phase, restored
+// afterwards) a schema of n = k*p + rest files (k >= 8, rest >= 1) gets breaking edits planted, and
+// the images are handed over with the edited file LAST in Files(), i.e. inside the remainder chunk
+// (on both sides, or on one side only).  Oracle: the expectations of the edit, as for every plant.
+func bigJob(run *hx.Run, root *hx.Rand, replayID int, k int, p int, rn *sg.Runner) *sg.Result {
+	res := sg.NewResult()
+	r := root.Fork(uint64(k))
+	if got := thread.Parallelism(); got != p {
+		res.Fail(hx.OracleFailure{Class: "harness-parallelism", What: fmt.Sprintf("thread.Parallelism() = %d, want %d", got, p), Replay: replay(run, replayID)})
+		return res
+	}
+	var n int
+	if p == 2 {
+		n = hx.Pick(r, []int{17, 17, 19, 21})
+	} else {
+		n = hx.Pick(r, []int{25, 26, 26, 28, 29})
+	}
+	base := sg.State{S: sg.GenerateBig(r, n), K: sg.PlainKnobs}
+	cache := sg.NewCache()
+	prev0, err := cache.Compile(base.Sources())
+	if err != nil {
+		res.Count("big:compile-error")
+		res.Samples = append(res.Samples, map[string]any{"big-compile-error": err.Error()})
+		return res
+	}
+	res.Count(fmt.Sprintf("big:P=%d:files=%d:chunk=%d:remainder=%d", p, n, n/p, n%(n/p)))
+	inRemainder := func(c *sg.Compiled, file string) bool {
+		fs := c.Image.Files()
+		chunk := len(fs) / p
+		if chunk < 8 {
+			return false
+		}
+		for i, f := range fs {
+			if f.Path() == file {
+				return i >= p*chunk
+			}
+		}
+		return false
+	}
+	done := 0
+	for try := 0; try < 12 && done < 4; try++ {
+		op := hx.Pick(r, sg.BreakingOps)
+		if op.ProbeOnly {
+			continue
+		}
+		sites := op.Sites(base.S)
+		if len(sites) == 0 {
+			continue
+		}
+		site := hx.Pick(r, sites)
+		pl, ok := plant(base, op, site, false, r, res)
+		if !ok || len(pl.exp) == 0 {
+			continue
+		}
+		cur0, err := cache.Compile(pl.cur.Sources())
+		if err != nil {
+			res.Count("edit:compile-error:" + op.Name)
+			continue
+		}
+		// the file the annotation is located in / the edited file goes last
+		primary := site.File
+		for _, e := range pl.exp {
+			if e.File != "" {
+				primary = e.File
+				break
+			}
+		}
+		cur, prev := cur0, prev0
+		side := []string{"both", "both", "cur", "prev"}[r.Intn(4)]
+		if side != "prev" && primary != "" {
+			if c, err := cur0.OrderedLast(primary); err == nil {
+				cur = c
+			}
+		}
+		if side != "cur" {
+			last := site.File
+			if last == "" || !prev0.HasFile(last) {
+				last = primary
+			}
+			if last != "" {
+				if c, err := prev0.OrderedLast(last); err == nil {
+					prev = c
+				}
+			}
+		}
+		where := ""
+		if inRemainder(cur, primary) {
+			where += "cur"
+		}
+		if inRemainder(prev, site.File) || inRemainder(prev, primary) {
+			where += "+prev"
+		}
+		if where == "" {
+			where = "none"
+		}
+		res.Count(fmt.Sprintf("big:P=%d:edited-file-in-remainder-chunk:%s", p, where))
+		pl.note = fmt.Sprintf("{big P=%d files=%d remainder=%s} ", p, n, where) + pl.note
+		evalCompiled(run, replayID, res, rn, cur, prev, pl, r, ":big")
+		done++
+	}
+	return res
+}
+
 func main() {
 	run := hx.Start("C03")
 	// probe once, before the parallel jobs: which model dispatch matches this tree
@@ -421,11 +820,7 @@ func main() {
 		i = j
 	}
 	only := run.Only
-	if only >= 0 {
-		if only >= len(plan) {
-			fmt.Println("--only: no such plan entry")
-			return
-		}
+	if only >= 0 && only < len(plan) {
 		run.Only = jobOf[only]
 	}
 	firstJobOfBase := map[int]int{}
@@ -434,7 +829,39 @@ func main() {
 			firstJobOfBase[plan[j.lo].bi] = ji
 		}
 	}
-	sets := sg.RunJobs(run, len(jobs), func(ji int, rn *sg.Runner) *sg.Result {
+	// extra jobs after the plan: the defaults matrix (one job per layout) and the large-image jobs
+	// (own phases under thread.SetParallelism(2) / (3)); `--only len(plan)+k` addresses extra job k
+	nPlanJobs := len(jobs)
+	nBig := run.N(4, 8)
+	nExtra := sg.NumMatrixLayouts + 2*nBig
+	if only >= len(plan) {
+		k := only - len(plan)
+		if k >= nExtra {
+			fmt.Println("--only: no such extra job")
+			return
+		}
+		run.Only = nPlanJobs + k
+	}
+	extraReplay := func(k int) int { return len(plan) + k }
+	// every importEvery-th plan entry is evaluated a second time on images with import files
+	importEvery := run.N(7, 24) // thorough: in.txt stays < 200 MB
+	saved := thread.Parallelism()
+	phases := []sg.Phase{
+		{N: nPlanJobs + sg.NumMatrixLayouts},
+		{N: nBig, Enter: func() { thread.SetParallelism(2) }, Leave: func() { thread.SetParallelism(saved) }},
+		{N: nBig, Enter: func() { thread.SetParallelism(3) }, Leave: func() { thread.SetParallelism(saved) }},
+	}
+	sets := sg.RunJobsPhases(run, phases, func(ji int, rn *sg.Runner) *sg.Result {
+		if ji >= nPlanJobs {
+			k := ji - nPlanJobs
+			switch {
+			case k < sg.NumMatrixLayouts:
+				return matrixJob(run, extraReplay(k), k, rn)
+			case k < sg.NumMatrixLayouts+nBig:
+				return bigJob(run, root.Fork(1<<42), extraReplay(k), k, 2, rn)
+			}
+			return bigJob(run, root.Fork(1<<42), extraReplay(k), k, 3, rn)
+		}
 		res := sg.NewResult()
 		jb := jobs[ji]
 		bi := plan[jb.lo].bi
@@ -491,11 +918,17 @@ func main() {
 				res.Sets["operator_kind_planted"] = append(res.Sets["operator_kind_planted"], keys...)
 				res.Count("kind:" + kindOnly)
 				res.Count("syntax-of-site:" + syn)
+				if pi%importEvery == 3 {
+					evalPlantedImports(run, pi, res, rn, base, p, rv)
+				}
 			}
 		}
 		return res
 	})
 	run.Only = only
+	if got := thread.Parallelism(); got != saved {
+		panic(fmt.Sprintf("thread.Parallelism() not restored: %d != %d", got, saved))
+	}
 	// which applicable (operator, kind) pairs ended up without an evaluated plant
 	planted := map[string]bool{}
 	for _, k := range sets["operator_kind_planted"] {
